@@ -716,7 +716,17 @@ class AEval(dtable.Eval):
     def macro(self, e, env):
         p = e["path"]
         if p in QUOTES:
-            return TOK(self.quote(e["tokens"], env))
+            toks = e["tokens"]
+            if p.endswith("quote_spanned"):
+                # `quote_spanned! { span => tokens }`: the span expression and the arrow are not part of the output
+                for i_, t_ in enumerate(toks):
+                    if t_["t"] == "punct" and t_["v"] == "=>":
+                        toks = toks[i_ + 1:]
+                        break
+                    if t_["t"] == "punct" and t_["v"] == "=" and i_ + 1 < len(toks) and toks[i_ + 1]["t"] == "punct" and toks[i_ + 1]["v"] == ">":
+                        toks = toks[i_ + 2:]
+                        break
+            return TOK(self.quote(toks, env))
         if p == "matches" and is_node(e.get("scrutinee")):
             v = self.ex(e["scrutinee"], env)
             b = self.pat(e["mpat"], v, env)
